@@ -720,6 +720,7 @@ func genC18(ctx *fw.Ctx) []fw.Case {
 	cases = append(cases, fw.Case{ID: "ordering-pairs/cmpxchg", Run: c18CmpXchgPairs})
 	cases = append(cases, fw.Case{ID: "flagset/FastMathFlag", Run: c18FastMathSubsets})
 	cases = append(cases, fw.Case{ID: "flag-lists/edited-in-place", Run: c18FlagListsEdited})
+	cases = append(cases, fw.Case{ID: "contexts/attributes-and-call-sites", Run: c18Contexts})
 	for _, k := range []string{"global", "global-declaration", "declaration", "definition", "alias"} {
 		k := k
 		cases = append(cases, fw.Case{ID: "header-combinations/" + k, Run: func(r *fw.Rec) { c18HeaderCombos(r, k) }})
@@ -1720,4 +1721,118 @@ define i32 @h(i32 %a) {
 		r.Nontrivial("flag-list-edit:" + ls[k].what)
 	}
 	r.TallyN("flag_lists", "edited-in-place-without-leak", len(locs))
+}
+
+// c18Contexts: the same keyword in each position the printer has a separate
+// piece of code for. (a) Every function attribute with a payload (uwtable kinds,
+// align, alignstack, allocsize, vscale_range, allockind) is placed in a function
+// header, on a call site and in an attribute group definition; print and parse
+// must give back the same attribute values in each. (b) The calling convention
+// written on a call site is the one read back, whatever convention the callee
+// was declared with (none stays none).
+func c18Contexts(r *fw.Rec) {
+	attrs := []ir.FuncAttribute{
+		ir.UnwindTable{Kind: enum.UnwindTableKindNone}, ir.UnwindTable{Kind: enum.UnwindTableKindSync}, ir.UnwindTable{Kind: enum.UnwindTableKindASync},
+		ir.AlignStack(16), ir.AllocSize{ElemSizeIndex: 0, NElemsIndex: -1}, ir.AllocSize{ElemSizeIndex: 1, NElemsIndex: 0},
+		ir.VectorScaleRange{Min: -1, Max: 4}, ir.VectorScaleRange{Min: 2, Max: 8}, ir.VectorScaleRange{Min: 0, Max: 0},
+		ir.AllocKind{Kind: enum.AllocKindAlloc | enum.AllocKindZeroed}, ir.AllocKind{Kind: enum.AllocKindFree},
+		enum.FuncAttrNoUnwind, ir.AttrString("s"), ir.AttrPair{Key: "k", Value: "v"},
+	}
+	for ai, attr := range attrs {
+		for _, ctx := range []string{"function-header", "call-site", "attribute-group"} {
+			r.Eval(1)
+			m := ir.NewModule()
+			callee := m.NewFunc("callee", types.I8Ptr, ir.NewParam("a", types.I32), ir.NewParam("b", types.I32))
+			f := m.NewFunc("f", types.Void)
+			b := f.NewBlock("entry")
+			call := b.NewCall(callee, irconst.NewInt(types.I32, 1), irconst.NewInt(types.I32, 2))
+			b.NewRet(nil)
+			switch ctx {
+			case "function-header":
+				callee.FuncAttrs = append(callee.FuncAttrs, attr)
+			case "call-site":
+				call.FuncAttrs = append(call.FuncAttrs, attr)
+			default:
+				g := &ir.AttrGroupDef{ID: 3, FuncAttrs: []ir.FuncAttribute{attr}}
+				m.AttrGroupDefs = append(m.AttrGroupDefs, g)
+				callee.FuncAttrs = append(callee.FuncAttrs, g)
+			}
+			key := fmt.Sprintf("contexts/%s/%T/%d", ctx, attr, ai)
+			text, pp := printGuard(m)
+			if pp != "" {
+				r.Violate(fw.Violation{Key: key, What: "printing panics: " + firstLine(pp)})
+				continue
+			}
+			m2, perr, pmsg := parseGuard("c18-contexts", text)
+			if pmsg != "" || perr != nil {
+				what := pmsg
+				if perr != nil {
+					what = perr.Error()
+				}
+				r.Violate(fw.Violation{Key: key, Input: text, What: fmt.Sprintf("the attribute %s printed in a %s is not read back: %s", attr, ctx, firstLine(what))})
+				continue
+			}
+			var got []ir.FuncAttribute
+			switch ctx {
+			case "function-header":
+				got = m2.Funcs[0].FuncAttrs
+			case "call-site":
+				got = m2.Funcs[1].Blocks[0].Insts[0].(*ir.InstCall).FuncAttrs
+			default:
+				if len(m2.AttrGroupDefs) == 1 {
+					got = m2.AttrGroupDefs[0].FuncAttrs
+				}
+			}
+			if len(got) == 1 {
+				// (the parser returns *ir.AllocKind where the API takes the value)
+				if rv := reflect.ValueOf(got[0]); rv.Kind() == reflect.Ptr && !rv.IsNil() && rv.Elem().Type() == reflect.TypeOf(attr) {
+					got = []ir.FuncAttribute{rv.Elem().Interface().(ir.FuncAttribute)}
+				}
+			}
+			if len(got) != 1 || !reflect.DeepEqual(got[0], attr) {
+				r.Violate(fw.Violation{Key: key, Input: text, What: fmt.Sprintf("the attribute %#v printed in a %s is read back as %#v", attr, ctx, got)})
+				continue
+			}
+			r.Nontrivial(key)
+			r.Tally("contexts", ctx)
+		}
+	}
+	// (b) call-site calling conventions against the callee's
+	ccs := []enum.CallingConv{enum.CallingConvNone, enum.CallingConvFast, enum.CallingConvCold, enum.CallingConvX86FastCall, enum.CallingConv(77)}
+	for _, calleeCC := range ccs {
+		for _, callCC := range ccs {
+			r.Eval(1)
+			m := ir.NewModule()
+			callee := m.NewFunc("callee", types.Void)
+			callee.CallingConv = calleeCC
+			callee.NewBlock("").NewRet(nil)
+			pers := m.NewFunc("pers", types.I32)
+			pers.Sig.Variadic = true
+			f := m.NewFunc("f", types.Void)
+			f.Personality = pers
+			b, ok, lp := f.NewBlock("entry"), f.NewBlock("ok"), f.NewBlock("lp")
+			call := b.NewCall(callee)
+			call.CallingConv = callCC
+			inv := b.NewInvoke(callee, nil, ok, lp)
+			inv.CallingConv = callCC
+			ok.NewRet(nil)
+			lp.NewLandingPad(types.I32).Cleanup = true
+			lp.NewRet(nil)
+			key := fmt.Sprintf("contexts/call-site-cc/callee=%s/call=%s", calleeCC, callCC)
+			text, pp := printGuard(m)
+			m2, perr, pmsg := parseGuard("c18-callcc", text)
+			if pp != "" || pmsg != "" || perr != nil {
+				r.Violate(fw.Violation{Key: key, Input: text, What: "print or re-parse fails"})
+				continue
+			}
+			c2 := m2.Funcs[2].Blocks[0].Insts[0].(*ir.InstCall)
+			i2 := m2.Funcs[2].Blocks[0].Term.(*ir.TermInvoke)
+			if c2.CallingConv != callCC || i2.CallingConv != callCC || m2.Funcs[0].CallingConv != calleeCC {
+				r.Violate(fw.Violation{Key: key, Input: text, What: fmt.Sprintf("a call written with calling convention %q to a %q function reads back as call %q / invoke %q (function %q)", callCC, calleeCC, c2.CallingConv, i2.CallingConv, m2.Funcs[0].CallingConv)})
+				continue
+			}
+			r.Nontrivial(key)
+			r.Tally("contexts", "call-site-cc")
+		}
+	}
 }
